@@ -463,7 +463,45 @@ func rangeNum(r *core.Rand) cty.Value {
 	return cty.MustParseNumberVal([]string{"0", "1", "-1", "2", "0.5", "512.5"}[r.Intn(6)])
 }
 
+// rangeNearBoundary anchors a short range at a machine-integer boundary (2^31, 2^32, 2^53, 2^63, 2^64 and
+// their negatives): start a few steps before the boundary, end at or just around it, |step| from 1 to 1000.
+// Numbers that fit int64 are built with NumberIntVal half of the time (64-bit mantissa), otherwise parsed at
+// 512 bits; every produced element is exactly representable either way, so the exact reference applies.
+func rangeNearBoundary(r *core.Rand) []cty.Value {
+	bounds := []string{"2147483647", "2147483648", "4294967295", "4294967296", "9007199254740992", "9223372036854775807", "9223372036854775808",
+		"18446744073709551615", "18446744073709551616", "-2147483648", "-9223372036854775808", "-9223372036854775809", "-9007199254740992"}
+	B, _ := new(big.Int).SetString(bounds[r.Intn(len(bounds))], 10)
+	step := []int64{1, 2, 3, 7, 100, 1000}[r.Intn(6)]
+	k := int64(1 + r.Intn(5)) // elements before the boundary
+	down := r.Bool()
+	start := new(big.Int).Sub(B, big.NewInt(k*step+int64(r.Intn(int(step)))))
+	end := new(big.Int).Add(B, big.NewInt(int64(r.Intn(3))-1)) // B-1, B, B+1
+	if r.Chance(1, 4) {
+		end.Add(B, big.NewInt(step*int64(r.Intn(3))))
+	}
+	s := big.NewInt(step)
+	if down {
+		// mirror: count downwards towards -B
+		start.Neg(start)
+		end.Neg(end)
+		s.Neg(s)
+	}
+	mk := func(x *big.Int) cty.Value {
+		if x.IsInt64() && r.Bool() {
+			return cty.NumberIntVal(x.Int64())
+		}
+		return cty.MustParseNumberVal(x.String())
+	}
+	if step == 1 && r.Bool() {
+		return []cty.Value{mk(start), mk(end)}
+	}
+	return []cty.Value{mk(start), mk(end), mk(s)}
+}
+
 func genRange(r *core.Rand) []cty.Value {
+	if r.Chance(1, 8) {
+		return rangeNearBoundary(r)
+	}
 	n := r.Weighted([]int{0, 3, 4, 8})
 	if r.Chance(1, 60) {
 		n = []int{0, 4}[r.Intn(2)]
